@@ -123,7 +123,7 @@ type tHarness struct {
 	stallsSeen       int
 	stoppedSeen      bool
 	atStopped        []string // result set in the first quiescent state in which Stopped() was readable
-	stopInvokedEarly bool // Stop was invoked by the scenario's own stop thread (before the final stall)
+	stopInvokedEarly bool     // Stop was invoked by the scenario's own stop thread (before the final stall)
 	polls            int
 }
 
